@@ -511,7 +511,8 @@ impl World for RngWorld {
             // distinctness
             let mut sorted: Vec<&Vec<u8>> = vals.iter().collect();
             sorted.sort();
-            let dup = sorted.windows(2).any(|w| w[0] == w[1]);
+            // values narrower than 16 bytes could collide by chance (8-byte KDF contexts: 2^-53 per run)
+            let dup = sorted.windows(2).any(|w| w[0] == w[1] && w[0].len() >= 16);
             if dup {
                 out.violate("C11", "c11.distinct", site(&[("entry", info.name), ("configuration", mode)]), format!("{} returned the same value twice within {} calls", info.name, vals.len()));
             }
